@@ -543,7 +543,7 @@ def run(ctx):
     W = world()
     check_tables(ctx)
     cases = load_corpus()
-    n = ctx.n(260, 2500)
+    n = ctx.n(200, 2500)
     for i in range(n):
         depth = ctx.rng.choice([1, 2, 2, 3] if ctx.quick else [1, 2, 3, 3, 4, 5])
         if i % 5 in (1, 3):
